@@ -178,6 +178,14 @@ func EncodeSupervisor(supervisor *supervisor.Supervisor) *internalpb.SupervisorS
 		Timeout:    durationpb.New(supervisor.Timeout()),
 	}
 
+	// the backoff triple travels only when a backoff is configured, so records
+	// written by (and for) nodes without these fields stay byte-identical
+	if initialDelay := supervisor.InitialDelay(); initialDelay > 0 {
+		spec.BackoffInitialDelay = durationpb.New(initialDelay)
+		spec.BackoffMaxDelay = durationpb.New(supervisor.MaxDelay())
+		spec.BackoffResetAfter = durationpb.New(supervisor.BackoffResetAfter())
+	}
+
 	if directive, ok := supervisor.AnyErrorDirective(); ok {
 		encoded := encodeSupervisorDirective(directive)
 		spec.AnyErrorDirective = &encoded
@@ -228,6 +236,14 @@ func DecodeSupervisor(spec *internalpb.SupervisorSpec) *supervisor.Supervisor {
 	}
 	if timeoutSet || spec.GetMaxRetries() != 0 {
 		opts = append(opts, supervisor.WithRetry(spec.GetMaxRetries(), timeout))
+	}
+
+	if spec.GetBackoffInitialDelay() != nil {
+		opts = append(opts, supervisor.WithExponentialBackoff(
+			spec.GetBackoffInitialDelay().AsDuration(),
+			spec.GetBackoffMaxDelay().AsDuration(),
+			spec.GetBackoffResetAfter().AsDuration(),
+		))
 	}
 
 	if spec.AnyErrorDirective != nil {
